@@ -26,14 +26,7 @@ from .engine import Query, bytes_differ, fixed_inputs, outcome_summary, _mention
 from .explore import Program, concrete_outcome_of_paths, explore, model_bytes, same_concrete, validate_against_vm
 from .symvm import isc
 
-_G = {}
-
-
-def _vm():
-    key = ('vm', os.getpid())
-    if key not in _G:
-        _G[key] = VmRun()
-    return _G[key]
+from .shared import _G, _vm
 
 
 class Case:
@@ -369,8 +362,11 @@ def run_cases(pid, cases, tier, seed, t0, assumptions, extra_cov=None, pre_resul
     _G['cases'] = cases
     _G['builds'] = builds
     ctx = mp.get_context('fork')
+    worker = check_case
+    if cases and getattr(cases[0], 'contract', False):
+        from .contracts import check_contract_case as worker
     with ctx.Pool(min(NCPU, max(1, len(cases)))) as pool:
-        results = pool.map(check_case, [(ci, tier, seed) for ci in range(len(cases))], chunksize=1)
+        results = pool.map(worker, [(ci, tier, seed) for ci in range(len(cases))], chunksize=1)
     results = (pre_results or []) + results
     return report(pid, cases, results, builds, tier, seed, t0, assumptions, extra_cov)
 
@@ -490,6 +486,11 @@ def main(argv=None):
         if a.case:
             cases = [c for c in cases if re.search(a.case, c.name)]
         return run_cases(pid, cases, tier, seed, t0, assume, pre_results=pre)
+    elif pid == 'C11':
+        from .contracts import contract_cases
+        cases = contract_cases(tier, seed)
+        assume = BASE_ASSUMPTIONS + ['callee side only: the contract is entered under an emulated call frame (layout per the VM specification), validated every run against real `call`s on the real fuel-vm; the caller-side encoding done by `abi(..).method(..)` and the VM call instruction itself are outside',
+                                     'method bodies are pure (no storage, no msg_sender); one symbolic method name per name length occurring in the ABI plus one absent length']
     elif pid == 'C27':
         from .typed_more import std_cases
         cases = std_cases(tier, seed)
